@@ -1037,6 +1037,14 @@ Example C19_torn_witness_repaired :
   snd (fst r) = [] /\ completed (fst (fst r)) = crash_free Retro 1 3 /\ nth 2 (snd r) GDone = GNamed 1 (1, 0)%Z.
 Proof. exact torn_witness_repaired. Qed.
 
+(* an interruption in the pipeline's own wrap-up AFTER its last publication (tearing entry with k - 4 = number of files + 1): the
+   step counts as complete, the call does not return (exit status not 0), the rerun goes on with the next step *)
+Example C19_torn_late_death :
+  let r := script_run_t true Retro true 1 3 ([], []) [full_t; mkte (mke 10 canon_order) true; full_t; full_t] in
+  completed (fst (fst r)) = crash_free Retro 1 3 /\ snd (fst r) = [] /\
+  map (call_returns Retro 1) (snd r) = [Some true; None; Some true; Some false].
+Proof. vm_compute. repeat split; reflexivity. Qed.
+
 (* -- the script BEFORE the repair (tfix = false), kept as the witness of what the repair removed -- *)
 
 (* on a well-formed world the old script raises (JSONDecodeError, names nothing) EXACTLY when the first problem examine
